@@ -183,3 +183,122 @@ class LexModel(object):
 
     def sc_name(self, k):
         return self.dfa.sc_name.get(k, str(k))
+
+
+# ----------------------------------------------------------------------------
+# classification of action summaries into the vocabulary of the decoding table
+
+YYTEXT = ('g', '@cfg_yytext')
+
+
+def _is_yytext_byte(v, k):
+    """v is the value yytext[k] (k int) possibly sign-extended"""
+    if v[0] != 'ld':
+        return False
+    a = v[1]
+    if k == 0 and a[0] == 'ld' and a[1] == YYTEXT:
+        return True
+    if a[0] == 'idx' and a[1][0] == 'ld' and a[1][1] == YYTEXT and a[2] == ('c', k):
+        return True
+    return False
+
+
+def _yytext_plus(v, k):
+    if k == 0:
+        return v[0] == 'ld' and v[1] == YYTEXT
+    return v[0] == 'idx' and v[1][0] == 'ld' and v[1][1] == YYTEXT and v[2] == ('c', k)
+
+
+def classify_path(ap):
+    """one action path -> a short class string (see C03 reference decoder)"""
+    eff = [x for x in ap.effects if x[0] not in ('qvar',)]
+    q = ap.of('qputc')
+    errs = ap.of('error')
+    begins = [x[1] for x in ap.of('begin')]
+    ln, lnloop = ap.line_incs()
+    calls = [x for x in ap.of('call')]
+    cnames = [x[1] for x in calls]
+    tail = ''
+    if ln:
+        tail += '+line%d' % ln
+    if lnloop:
+        tail += '+line*'
+    if errs:
+        if ap.returns and ap.retval == ('c', 0):
+            return 'error' + tail
+        return 'error-without-return0'
+    if ap.of('getenv'):
+        g = ap.of('getenv')[0]
+        base = 'env' if _yytext_plus(g[1], 2) else 'env?'
+        if ap.returns:
+            return '%s->return(%s)' % (base, ap.retval[1] if ap.retval[0] == 'c' else '?') + tail
+        if any(not x[2] for x in q):
+            return base + '+const' + tail
+        return base + '->buffer' + tail
+    if any(n in ('__isoc99_sscanf', 'sscanf') for n in cnames):
+        sc = next(x for x in calls if x[1] in ('__isoc99_sscanf', 'sscanf'))
+        args = sc[2]
+        fmt = args[1][1] if args[1][0] == 'str' else '?'
+        off = next((k for k in (0, 1, 2, 3) if _yytext_plus(args[0], k)), None)
+        if len(q) == 1 and not q[0][2]:
+            v = q[0][1]
+            src = v
+            while src[0] == 'bin' and src[1] == 'trunc':
+                src = src[2]
+            if src[0] == 'ld' and src[1] == args[2]:
+                return 'scan(%s,+%s)' % (fmt, off) + tail
+        return 'scan?' + tail
+    if ap.returns:
+        rv = ap.retval
+        r = rv[1] if rv[0] == 'c' else '?'
+        y = ap.yylval()
+        ysrc = '?'
+        if y is not None:
+            if y[0] == 'ld' and y[1] == YYTEXT:
+                ysrc = 'yytext'
+            elif y[0] == 'ld' and y[1] == ('g', '@cfg_qstring'):
+                ysrc = 'buffer'
+            elif y[0] == 'call' and y[1] == 'trim_whitespace':
+                ysrc = 'trimmed-buffer'
+            else:
+                ysrc = sym.render(y)
+        else:
+            ysrc = 'none'
+        pre = ''
+        if q:
+            if len(q) == 1 and q[0][1] == ('c', 0) and not q[0][2]:
+                pre = 'terminate,'
+            elif any(x[2] for x in q):
+                pre = 'copy,' + ('terminate,' if q[-1][1] == ('c', 0) and not q[-1][2] else '')
+            else:
+                pre = 'qputc?,'
+        b = ('begin%s,' % begins[-1]) if begins else ''
+        if 'cfg_scan_fp_end' in cnames:
+            return 'pop-include' + tail
+        return 'return(%s,%s%s%s)' % (r, b, pre, ysrc) + tail
+    # continuing paths
+    if 'cfg_scan_fp_end' in cnames:
+        return 'pop-include'
+    if 'fwrite' in cnames:
+        return 'ECHO'
+    b = ('begin%s' % begins[-1]) if begins else ''
+    if not q:
+        return (b or 'skip') + tail
+    parts = []
+    for x in q:
+        v, loop = x[1], x[2]
+        if v[0] == 'c':
+            parts.append('const(%d)' % (v[1] & 0xff))
+        elif _is_yytext_byte(v, 0):
+            parts.append('all' if loop else 'byte0')
+        elif _is_yytext_byte(v, 1):
+            parts.append('from1' if loop else 'byte1')
+        else:
+            parts.append('?' + sym.render(v))
+    return b + ','.join(parts) + tail
+
+
+def classify(model, rule, eof_sc=None):
+    """set of classes over all paths of a rule (or of an EOF action)"""
+    aps = model.eof_actions[eof_sc] if eof_sc is not None else model.actions[rule]
+    return sorted(set(classify_path(a) for a in aps))
